@@ -10,9 +10,9 @@
    exactly, section by section, IN ORDER (so in particular as multisets).
    [req] is Rdata::equals (a parameter; only its transitivity is assumed, as in C06). *)
 From QV Require Import Base.Res Base.Octets Model.ZoneTree Spec.ZoneLookupS Model.Query Spec.ResolveS
-  Spec.ResolveRepr Proofs.QueryP Proofs.QueryTopP.
+  Spec.ResolveRepr Proofs.QueryP Proofs.QueryTopP Proofs.QueryDispatchP.
 (* the runner (Extract/ExC05.v) also extracts the server model and the octet-level instance *)
-From QV Require Model.Server Spec.NameRepr.
+From QV Require Model.Server Model.Reader Spec.NameRepr.
 
 Definition req_transitive (req : N -> N -> bytes -> bytes -> bool) : Prop :=
   forall cls ty a b c, req cls ty a b = true -> req cls ty b c = true -> req cls ty a c = true.
@@ -28,6 +28,15 @@ Theorem c05_answer_refines : forall req, req_transitive req ->
   exists r, answer_rec z qname qtype tcp = Some r /\
             norm_rec r = resolve req apex cls (accepted apex cls recs) qname qtype.
 Proof. exact build_answer_refines. Qed.
+
+(* The hypothesis [in_zone apex qname] is what the server's dispatch guarantees: the catalog entry
+   handle_query selects (Model/Server.v, longest suffix within the class; refined by the hash-map tree
+   in C22) has a name that is a suffix of the query name; for a Loaded entry that name is the apex. *)
+Theorem c05_dispatch_in_zone : forall es (q : Reader.question) cls e apex,
+  Server.cat_lookup es (Server.name_key (Reader.q_name q)) cls None = Some e ->
+  Server.e_name e = Server.lower_labels apex ->
+  in_zone apex (labels_of (Reader.q_name q)) = true.
+Proof. exact dispatch_in_zone. Qed.
 
 (* Chain bound: for a QTYPE other than CNAME and ANY the answer section never holds more than 8
    CNAME records (specification, and therefore the code). *)
@@ -142,6 +151,7 @@ Proof.
 Qed.
 
 Print Assumptions c05_answer_refines.
+Print Assumptions c05_dispatch_in_zone.
 Print Assumptions c05_chain_bound.
 Print Assumptions c05_loop_servfail.
 Print Assumptions c05_negative_ttl.
